@@ -307,9 +307,11 @@ class Proj:
         root.append("project(%s, %s, version: '1.0'%s)" % (ms('p%d' % self.idx), langs,
                     (', default_options: [%s]' % ', '.join(ms(o) for o in opts)) if opts else ''))
         root.append("prog = find_program('true')")
+        root.append("cc = meson.get_compiler('c')")
         used_names = []
         libs, cts, hdrs, exes, gens, cfgs = [], [], [], [], [], []
         locals_ = []          # (variable holding find_program() of an overridden program, the executable's variable)
+        pps, runs = [], []    # cc.preprocess() results (lists of sources), run/alias targets
         ntargets = r.choice([2, 3, 4, 5, 6, 8]) if self.flavour != 'big' else r.choice([10, 14, 18])
         per_block = max(1, ntargets // max(1, len(order)))
         tcount = 0
@@ -333,6 +335,11 @@ class Proj:
                 self.files[os.path.join(sd, 'spin.txt')] = 'x\n'
                 sl.append("spct = custom_target('spgen', input: 'spin.txt', output: 'spgen.h', command: [find_program('true'), '@INPUT@', '@OUTPUT@'], build_by_default: true)")
                 self.targets.append({'var': 'spct', 'name': 'spgen', 'dir': sd, 'kind': 'ct', 'bbd': True})
+            if r.random() < 0.5:
+                sl.append("sprt = run_target('sprt', command: [find_program('true')])")
+                sl.append("spal = alias_target('spal', sprt%s)" % r.choice(['', ', splib']))
+                if r.random() < 0.4:
+                    sl.append("spal2 = alias_target('spal2', spal)")
             sl.append("sp_dep = declare_dependency(link_with: splib)")
             self.files[os.path.join(sd, 'meson.build')] = '\n'.join(sl) + '\n'
             root.append("sp = subproject('sp1')")
@@ -343,7 +350,7 @@ class Proj:
             nonlocal tcount
             tcount += 1
             v = 't%d' % tcount
-            kind = r.choice(['exe', 'exe', 'exe', 'slib', 'shlib', 'lib', 'both', 'ct', 'ct', 'ct', 'gen', 'cfg', 'alias', 'run', 'mod'])
+            kind = r.choice(['exe', 'exe', 'exe', 'slib', 'shlib', 'lib', 'both', 'ct', 'ct', 'ct', 'gen', 'cfg', 'alias', 'run', 'mod', 'pp'])
             name = self.pick_name(used_names)
             used_names.append(name)
             kw = []
@@ -370,6 +377,10 @@ class Proj:
                     srcs.append('%s.process(%s)' % (r.choice(gens), ms(gi)))
                 if cfgs and r.random() < 0.3:
                     srcs.append(r.choice(cfgs))
+                if pps and r.random() < 0.35:
+                    srcs.append(r.choice(pps))                 # preprocessed sources (cc.preprocess)
+                if ext == 'cpp' and r.random() < 0.35:
+                    kw.append("cpp_args: ['-fmodules-ts']")    # C++ modules: dyndep statements
                 if libs and r.random() < 0.5:
                     kw.append('%s: [%s]' % (r.choice(['link_with', 'link_with', 'link_whole']) if kind != 'slibx' else 'link_with',
                                             ', '.join(r.sample(libs, min(len(libs), r.choice([1, 1, 2]))))))
@@ -479,11 +490,20 @@ class Proj:
                     i = self.src(d, 'h.in', 'x\n')
                     L.append("%s = configure_file(input: %s, output: %s, copy: true)" % (v, ms(i), ms(out)))
                 cfgs.append(v)
+            elif kind == 'pp':
+                psrc = [ms(self.src(d, 'c')) for _ in range(r.choice([1, 2]))]
+                if cts and r.random() < 0.3:
+                    psrc.append(r.choice(cts))
+                L.append("%s = cc.preprocess(%s, output: '@PLAINNAME@.i.c'%s)" % (
+                    v, ', '.join(psrc), (', depends: [%s]' % r.choice(cts)) if cts and r.random() < 0.4 else ''))
+                pps.append(v)
             elif kind == 'alias':
-                pool = libs + exes + cts
+                pool = libs + exes + cts + runs
                 if pool:
                     L.append('%s = alias_target(%s, %s)' % (v, ms(name), ', '.join(r.sample(pool, min(len(pool), 2)))))
+                    runs.append(v)
             elif kind == 'run':
+                runs.append(v)
                 pool = libs + exes + cts
                 L.append('%s = run_target(%s, command: [prog%s]%s)' % (
                     v, ms(name), (', ' + r.choice(pool)) if pool and r.random() < 0.4 else '',
@@ -640,6 +660,44 @@ def _ulist(prefix, n):
 
 
 CORPUS_PROJECTS = [
+    # C++ modules (dyndep statements) next to plain C++ targets whose objects are extracted
+    {'idx': 'cpp-modules-dyndep-takes-objects-of-plain-cpp-target', 'args': [], 'flavour': 'corpus',
+     'files': {'meson.build': "project('cm', 'c', 'cpp')\nh = static_library('helper', 'h.cpp')\n"
+                              "m = executable('m', 'm.cpp', cpp_args: ['-fmodules-ts'], objects: h.extract_all_objects(recursive: false))\n"
+                              "w = static_library('w', 'w.cpp', cpp_args: ['-fmodules-ts'], link_whole: h)\n"
+                              "x = executable('x', 'x.cpp', cpp_args: ['-fmodules-ts'], link_with: w)\ntest('t', x)\n",
+               'h.cpp': 'int h() { return 0; }\n', 'm.cpp': 'int main() { return 0; }\n', 'w.cpp': 'int w() { return 0; }\n',
+               'x.cpp': 'int main() { return 0; }\n'},
+     'targets': [{'var': 'm', 'name': 'm', 'dir': '', 'kind': 'exe', 'bbd': True}, {'var': 'w', 'name': 'w', 'dir': '', 'kind': 'slib', 'bbd': True},
+                 {'var': 'x', 'name': 'x', 'dir': '', 'kind': 'exe', 'bbd': True}], 'tests': [{'name': 't', 'uses': ['x']}]},
+    {'idx': 'fortran-dyndep-takes-objects-of-fortran-and-c-targets', 'args': [], 'flavour': 'corpus',
+     'files': {'meson.build': "project('cf', 'c', 'fortran')\nh = static_library('fh', 'h.f90')\nc = static_library('ch', 'c.c')\n"
+                              "e = executable('fe', 'm.f90', objects: [h.extract_all_objects(recursive: false), c.extract_all_objects(recursive: false)])\n"
+                              "w = static_library('fw', 'w.f90', link_whole: [h, c])\n",
+               'h.f90': 'subroutine h()\nend subroutine h\n', 'm.f90': 'program m\nend program m\n', 'w.f90': 'subroutine w()\nend subroutine w\n',
+               'c.c': 'int c(void) { return 0; }\n'},
+     'targets': [{'var': 'e', 'name': 'fe', 'dir': '', 'kind': 'exe', 'bbd': True}, {'var': 'w', 'name': 'fw', 'dir': '', 'kind': 'slib', 'bbd': True}],
+     'tests': []},
+    # alias_target / run_target inside a subproject
+    {'idx': 'alias-of-run-target-in-subproject', 'args': [], 'flavour': 'corpus',
+     'files': {'meson.build': "project('ca', 'c')\nsubproject('sub')\nr = run_target('rrt', command: [find_program('true')])\na = alias_target('ral', r)\n",
+               'subprojects/sub/meson.build': "project('sub', 'c')\nsrt = run_target('srt', command: [find_program('true')])\n"
+                                              "sal = alias_target('sal', srt)\nsal2 = alias_target('sal2', sal)\n"},
+     'targets': [], 'tests': []},
+    # cc.preprocess with --layout=flat, in the root and two levels down, with depends:
+    {'idx': 'preprocess-flat-layout', 'args': ['--layout=flat'], 'flavour': 'corpus',
+     'files': {'meson.build': "project('cp', 'c')\ncc = meson.get_compiler('c')\nhd = custom_target('hd', output: 'hd.h', command: [find_program('true'), '@OUTPUT@'])\n"
+                              "pp = cc.preprocess('foo.c', 'bar.c', output: '@PLAINNAME@.c', depends: hd)\ne = executable('e', pp)\nsubdir('a')\n",
+               'a/meson.build': "subdir('b')\n", 'a/b/meson.build': "pq = cc.preprocess('baz.c', output: '@PLAINNAME@.c', depends: hd)\nf = executable('f', pq)\n",
+               'foo.c': 'int main(void){return 0;}\n', 'bar.c': 'int b(void){return 0;}\n', 'a/b/baz.c': 'int main(void){return 0;}\n'},
+     'targets': [{'var': 'e', 'name': 'e', 'dir': '', 'kind': 'exe', 'bbd': True}, {'var': 'f', 'name': 'f', 'dir': 'a/b', 'kind': 'exe', 'bbd': True}],
+     'tests': []},
+    {'idx': 'preprocess-mirror-layout-subdirs', 'args': [], 'flavour': 'corpus',
+     'files': {'meson.build': "project('cq', 'c')\ncc = meson.get_compiler('c')\nhd = custom_target('hd', output: 'hd.h', command: [find_program('true'), '@OUTPUT@'])\n"
+                              "subdir('a')\ne = executable('e', pq, 'm.c')\n",
+               'a/meson.build': "pq = cc.preprocess('baz.c', output: '@BASENAME@.i.c', depends: hd)\n",
+               'm.c': 'int main(void){return 0;}\n', 'a/baz.c': 'int b(void){return 0;}\n'},
+     'targets': [{'var': 'e', 'name': 'e', 'dir': '', 'kind': 'exe', 'bbd': True}], 'tests': []},
     # unity + extracted objects, duplicate-free C sources: counts that are / are not a multiple of unity_size
     {'idx': 'unity-extracted-objects-default-size-4-8-3-5', 'args': ['--unity=on'], 'flavour': 'corpus',
      'files': dict(list(_usrc('a', 4).items()) + list(_usrc('b', 8).items()) + list(_usrc('c', 3).items()) + list(_usrc('d', 5).items()) +
@@ -1148,6 +1206,25 @@ def run(ctx):
     else:
         reserved = []
 
+    # glue: run-target statement names and the path algebra of the preprocess model
+    rn = [[sp, n] for sp in ('', 'sub', 'sp1', 'a b', 'x@@y') for n in ('srt', 'sal', 'a b', 'u@@v', 'ünï')]
+    comps = ['', 'a', 'a/b', 'a/b/c', 'meson-out', 'meson-out/x.p', 'sub1/deep', 'b', 'a/c', 'x/y/z/w']
+    rp = [[t, st] for t in comps for st in comps]
+    gi = run_impl('c04.py', {'runname': rn, 'relpath': rp})
+    if built:
+        gcases = [('runname', a) for a in rn] + [('relpath', a) for a in rp]
+        gm = ctx.run_model(gcases)
+        kc_cases += gcases[:20] + gcases[-40:]
+        kc_outs += gm[:20] + gm[-40:]
+        for c, a, b in zip(gcases, gi['runname'] + gi['relpath'], gm):
+            ctx.count((c[0], tuple(c[1])))
+            if a != b:
+                ctx.disagreements.append({'stream': 'glue', 'case': c, 'implementation': a, 'model': b})
+        pcases = [('ppsrc', [fl, sd, 'preprocessor_0', 'foo.c.c']) for fl in 'TF' for sd in ('', 'a', 'a/b', 'sub1/deep/x')]
+        for c, o in zip(pcases, ctx.run_model(pcases)):
+            got, want = o.split(S1)
+            if got != want:
+                ctx.disagreements.append({'stream': 'glue', 'case': c, 'consumed': got, 'produced': want})
     phase('B-names')
     # ------------------------------------------------------------------ E: which targets sit behind meson-test-prereq
     tl = [[[o, [], []]] for o in TOBJS] + [[['O', [o], []]] for o in TOBJS] + [gen_tests(rng) for _ in range(6000 if thorough else 600)]
@@ -1246,6 +1323,12 @@ def run(ctx):
                     ident = 'C04:cli:pipe-in-path'
                 elif kinds == ['unreachable'] and any('override_find_program' in b for b in rc['files'].values()):
                     ident = 'C04:cli:overridden-program-unreachable'
+                elif kinds == ['missing-input'] and any('alias_target' in b for b in rc['files'].values()) and \
+                        all(not os.path.dirname(e[2]) and e[1].count('@@') for e in rs['verdict']):
+                    ident = 'C04:cli:run-target-dep-in-subproject'
+                elif kinds == ['missing-input'] and '--layout=flat' in rc['args'] and any('.preprocess(' in b for b in rc['files'].values()) and \
+                        all('preprocessor_' in e[1] or 'preprocessor_' in e[2] for e in rs['verdict']):
+                    ident = 'C04:cli:preprocess-flat-layout'
                 elif unity_known_finding(rs['verdict'], rc, s['builddir'], rs.get('parse', 'ERR')):
                     ident = 'C04:cli:unity-extracted-objects'
 
